@@ -144,9 +144,9 @@ def make_opts(rng, npool, npool_small=None):
     enabled = [i for i in range(npool) if rng.random() < 0.7] or [0, 1]
     return {
         'pool_enabled': enabled,
-        'loose_via': subset(rng, ['bytes', 'stream', 'short', 'file']),
+        'loose_via': subset(rng, ['bytes', 'stream', 'short', 'file', 'offset']),
         'pack_api': subset(rng, ['objects', 'streams', 'single']),
-        'pack_via': subset(rng, ['bytesio', 'short', 'lazy']),
+        'pack_via': subset(rng, ['bytesio', 'short', 'lazy', 'offset']),
         'pack_compress': subset(rng, [True, False]),
         'no_holes': subset(rng, [True, False]),
         'read_twice': subset(rng, [True, False]),
